@@ -8,7 +8,14 @@ use std::collections::BTreeMap;
 use std::sync::Arc;
 
 fn oracle() -> Oracle {
-    Arc::new(|run: &Run, out: &mut Vec<Finding>| {
+    oracle_with(true)
+}
+
+/// `final_state = false`: programs in which the sweeper or admission also remove keys, so that the sequential application
+/// of the queued commands alone does not define the final contents - exactly-once, order, one at a time and "every
+/// queued command is answered" are still decided.
+fn oracle_with(final_state: bool) -> Oracle {
+    Arc::new(move |run: &Run, out: &mut Vec<Finding>| {
         // (i) acknowledgements of a thread's queued calls complete in submission order (monitor)
         for h in &run.monitor_hits {
             out.push(Finding::new("ack-order", "order:ack-completed-out-of-order", h.clone()));
@@ -60,6 +67,18 @@ fn oracle() -> Oracle {
             } else {
                 open = None;
             }
+        }
+        if !final_state {
+            for (c, _, kind) in &queued {
+                match run.status_of(c.thread, c.idx) {
+                    None | Some(CommandStatus::Pending) => out.push(Finding::new("never-answered", "order:command-never-answered", format!("{} queued a {} command whose acknowledgement never completed", c.short(), kind))),
+                    _ => {}
+                }
+            }
+            for f in accounting_violations(&run.obs_end) {
+                out.push(Finding::new("accounting", "order:accounting-broken", f));
+            }
+            return;
         }
         // (iii) statuses and final state = sequential application in dequeue order (no memory pressure here)
         let mut model: BTreeMap<K, V> = BTreeMap::new();
@@ -246,6 +265,23 @@ fn programs() -> Vec<Program> {
         p.thorough_only = true;
         v.push(p);
     }
+    // acknowledgements that are really awaited: 'complete' includes waking whoever waits, also when the acknowledgement was
+    // polled from another context before (the waker of the latest poll is the one that counts)
+    v.push(mk("burst: put a;put b;await(b);await(a) /queue1", 1, vec![], vec![vec![put(1, 2), put(2, 2), Op::Await { call: 1 }, Op::Await { call: 0 }]]));
+    v.push(mk("burst: put a;delete a;poll_once(delete);await(delete) /queue2", 2, vec![], vec![vec![put(1, 2), del(1), Op::PollOnce { call: 1 }, Op::Await { call: 1 }]]));
+    // the worker is not the only writer of the weight table: a queued weight change while the sweeper releases another key
+    {
+        let mut p = mk("burst: upsert a(w3);put c || {clock;tick} sweeping b /queue1", 1, vec![put(1, 2), put_ttl(2, 2, 1000)], vec![vec![upw(1, 3), put(3, 2)], vec![adv(3000), Op::Tick]]);
+        p.world.dash_single_shard = true; // a and b share a shard of the weight table
+        v.push(p);
+    }
+    // the smallest sketch the builder accepts, a full cache: every queued put has to go through admission and is still answered
+    {
+        let mut p = mk("burst: put c;put d;delete a;put e /queue1/counters=1/full cache", 1, vec![put(1, 2), put(2, 2)], vec![vec![put(3, 2), put(4, 2), del(1), put(5, 2)]]);
+        p.setup = Setup { weight: 4, queue: 1, counters: 1, ..Setup::default() };
+        v.push(p);
+    }
+    v.push(mk("bursts: put a;await || put b;poll_once;await /queue1", 1, vec![], vec![vec![put(1, 2), Op::Await { call: 0 }], vec![put(2, 2), Op::PollOnce { call: 0 }, Op::Await { call: 0 }]]));
     v
 }
 
@@ -258,7 +294,8 @@ pub fn def(ctx: &Ctx) -> PropertyDef {
             let n = p.threads.len();
             {
                 let nthreads = p.threads.len();
-                program_scenario(p, oracle(), move |c| crate::harness::ilv::tier_cfg(c, nthreads))
+                let o = if p.name.contains("sweeping") || p.name.contains("full cache") { oracle_with(false) } else { oracle() };
+                program_scenario(p, o, move |c| crate::harness::ilv::tier_cfg(c, nthreads))
             }
         })
         .collect();
